@@ -117,7 +117,7 @@ TEXTS = {
          "explored history: the order of ALL time points of every report must agree with the model's logical clock "
          "wherever execution fixes it, durations must lie in the wall-clock bracket of the start/finish calls, begin times "
          "in the wall-clock window of the run. elapsed() is compared as Some/None. Partial: agreement with real time is "
-         "measured with slack (20 us + 2%, 50 ms for absolute times), not proved.", "DESIGN.md 6/C18"),
+         "measured with slack (3-20 us + 2%, 50 ms for absolute times), not proved.", "DESIGN.md 6/C18"),
  "C19": ("Kernel-checked theorems for the Jaeger reporter: convert transmits ids exactly (128-bit trace id as two "
          "recombining halves), name/tags/log fields unchanged and in order, times in whole microseconds; zig-zag and "
          "varint round-trip for every 64-bit value (top bit set included). The Thrift compact emitBatch encoder is "
@@ -136,3 +136,48 @@ TEXTS = {
          "DESIGN.md 6/C20"),
  "C12": ("Kernel-checked theorems over all 2^128 x 2^64 x 2 contexts and all byte strings (round trip, 55-byte shape, exact characterisation of the accepted language, rejection clauses, Display/FromStr/serde) about a Gallina model of id.rs; the model is tied to the code on every run by running the real codec functions and the extracted model on the same generated strings/contexts and comparing every result, and by re-checking an obligation over the literals translated from id.rs. No panic is checked by catch_unwind on the generated inputs only (partial).", "DESIGN.md 6/C12"),
 }
+
+
+# ---- later refinements of the texts above (applied to the joined strings; each must match) ----
+_EDITS = [
+ ("C01", "in the default configuration nothing stays buffered across a cycle; the records of a set are exactly its recorded spans. The end-to-end statement",
+  "in the default configuration, for EVERY batch and every active map satisfying the cycle invariant, report() receives as a "
+  "multiset exactly one record per span per token item of what was submitted (nothing lost, nothing twice, nothing else), over any "
+  "number of cycles wherever the cuts fall, and the invariant holds in every state reachable by any history of the system model, so "
+  "every default-mode report in a reachable state is exactly the spans of the drained batch. The composition over the scheduler"),
+ ("C01", "and by a live run with the real background thread and flush().",
+  "and by a live run with the real background thread and flush(), including a reporter that stalls inside report() while a "
+  "short-lived thread finishes more spans."),
+ ("C03", "'Delivered whole' is shown by correspondence only (the unconditional statement is false across threads: known finding K1).",
+  "Delivered whole, at the collector: when the commit of c is processed (c not cancelled) the one report of that cycle carries for c "
+  "exactly the spans of everything the collector had been given for c before plus everything submitted for c in that batch, in "
+  "order, each once. Across threads ('every span finished before the root on any thread') the statement is false of the faithful "
+  "model: known finding K1; that part is judged by the oracle on explored histories."),
+ ("C18", "Nesting of the instants themselves follows from the LIFO discipline of the local layer (C10) and is checked on every explored history: the order",
+  "The instants of a local-span set nest, as a theorem for every well-nested program of the thread-local layer (any depth, refused "
+  "openings, any ids): what a program records is a pre-order forest in which every span's interval strictly contains its children "
+  "and events, later siblings begin after a span's end and every entry lies in the program's own time window (inductive predicate "
+  "'nested', Proofs/TimeProofs.v); what a scope collects is such a forest. On every explored history the order"),
+ ("C19", "integers and strings of every size class read back to what was written; the real HTTP body",
+  "integers (both signs) and strings of every size class read back to what was written, and the WHOLE request body reads back to "
+  "exactly the spans it was made from (every field, the optional meta map in order, nothing left over) for every batch whose strings "
+  "are shorter than 2^32 bytes, hence the body encoding is injective; the real HTTP body"),
+ ("C19", "Partial: a full decode(encode) theorem for the whole Datadog body and the third-party encoders themselves are not proved.",
+  "Partial: the third-party encoders themselves (rmp-serde, thrift_codec, opentelemetry_sdk) are compared, not proved."),
+ ("C17", "Tied to the code by comparing to_span_records output and pushed copies.",
+  "Tied to the code by comparing to_span_records output and pushed copies, and by the duration clause of the time oracle (a span "
+  "open at collection must last until the collect call)."),
+ ("C13", "drop before completion, cycles inside the final call).",
+  "drop before completion, cycles inside the final call); enter_on_poll is exercised inside the system histories: local spans whose "
+  "handle is 2 mod 4 are recorded by polling a persistent enter_on_poll future (first polled with or without a local parent, later "
+  "under another one)."),
+ ("C14", None, None),
+ ("C10", "comparing contexts, parents and attachment targets.",
+  "comparing contexts, parents and attachment targets; guards, local spans, collectors and spans whose handle is 3 mod 5 are "
+  "released by unwinding (a caught panic) instead of a plain drop."),
+]
+for _k, _a, _b in _EDITS:
+    if _a is None:
+        continue
+    assert _a in TEXTS[_k][0], (_k, _a)
+    TEXTS[_k] = (TEXTS[_k][0].replace(_a, _b), TEXTS[_k][1])
